@@ -22,6 +22,10 @@ fn kind_of(k: &str) -> &'static str {
     match k {
         "cnf" => "cnf",
         "wcnf" => "wcnf",
+        "wcnf16" => {
+            dimacs::NARROW.store(true, std::sync::atomic::Ordering::Relaxed);
+            "wcnf"
+        }
         _ => "gcnf",
     }
 }
